@@ -495,6 +495,8 @@ def run(rep, tier):
     rep.floor("hash-to-number conversions", hash_bits_rule(rep, us["ecdsa:default"]), 2)
     reduce_rule(rep, us["ecdsa:default"])
     rep.floor("hash reductions", hash_reduction_rule(rep, us["ecdsa:default"]), 3)
+    from props import c03_audit
+    rep.floor("multiplication results read in ecdsa.h", c03_audit.infinity_rule(rep, us["ecdsa:default"]), 3)
     rep.floor("signed-to-digit conversions", sum(sign_rule(rep, u_) for u_ in us.values()) // len(us), 4)
     # the signer's k*G and the private-key verifier run the fixed-base comb: it reads scalar bits only below the table's
     # capacity (C02's rule, with the curve table it needs)
